@@ -177,7 +177,7 @@ func inferTies(p *ref.Program, node int, ts []tensor.Tensor, vals, grads []*ref.
 	x := vals[in]
 	hasZero := false
 	for _, v := range x.V {
-		if v == 0 {
+		if math.Abs(v) <= ref.EqTolerance {
 			hasZero = true
 		}
 	}
@@ -200,7 +200,7 @@ func inferTies(p *ref.Program, node int, ts []tensor.Tensor, vals, grads []*ref.
 	tie := make([]float64, len(x.V))
 	for i, v := range x.V {
 		tie[i] = 0.5
-		if v != 0 || gy.V[i] == 0 || m == 1 {
+		if math.Abs(v) > ref.EqTolerance || gy.V[i] == 0 || m == 1 {
 			continue
 		}
 		d := obs.V[i] / gy.V[i] // derivative used at 0
